@@ -13,6 +13,7 @@ type refCons struct {
 }
 
 type storeSpec struct {
+	ghost  bool // the region has a peer on this store id but the cluster does not know the store
 	id     uint64
 	labels [][2]string // key, value (value never empty)
 }
@@ -48,6 +49,9 @@ func refExclusiveKey(k string) bool {
 //	exists    - the store has the label
 //	notExists - the store does not have the label
 func refMatch(s storeSpec, cs []refCons) bool {
+	if s.ghost {
+		return false // a peer on a store that does not exist matches no rule: it is an orphan
+	}
 	for _, l := range s.labels {
 		if refExclusiveKey(l[0]) {
 			named := false
